@@ -74,3 +74,21 @@ class AbsVar:
 
     def get(self):
         raise NotImplementedError("external")
+
+
+class AbsArray:
+    """A decoded list-valued data item (an Array of items): iterable over its item objects, len / truthiness, and get()
+    gives the plain values.  Executed as written (not a call-out): `items` is a list of AbsItem."""
+
+    def __iter__(self):
+        return iter(self.items)
+
+    def __len__(self):
+        return len(self.items)
+
+    def get(self):
+        return [item.get() for item in self.items]
+
+
+class AbsReportList:
+    """The report list built for one collection event (ghost g_ceid: for which event)."""
